@@ -846,7 +846,37 @@ func range_(thread *Thread, b *Builtin, args Tuple, kwargs []Tuple) (Value, erro
 		return nil, nameErr(b, "step argument must not be zero")
 	}
 
-	return rangeValue{start: start, stop: stop, step: step, len: rangeLen(start, stop, step)}, nil
+	n, ok := rangeLenChecked(start, stop, step)
+	if !ok {
+		return nil, nameErr(b, "range is too large")
+	}
+	return rangeValue{start: start, stop: stop, step: step, len: n}, nil
+}
+
+// rangeLenChecked is like rangeLen but reports ok=false if the extent
+// |stop-start| (and hence the length) does not fit in an int.
+func rangeLenChecked(start, stop, step int) (n int, ok bool) {
+	var ext uint64
+	switch {
+	case step > 0 && stop > start:
+		ext = uint64(stop) - uint64(start)
+	case step < 0 && start > stop:
+		ext = uint64(start) - uint64(stop)
+	default:
+		return 0, true
+	}
+	if ext-1 > math.MaxInt64 {
+		return 0, false
+	}
+	abs := uint64(step)
+	if step < 0 {
+		abs = -abs
+	}
+	un := (ext-1)/abs + 1
+	if un > math.MaxInt64 {
+		return 0, false
+	}
+	return int(un), true
 }
 
 // A rangeValue is a comparable, immutable, indexable sequence of integers
